@@ -196,7 +196,9 @@ package utils
 //@   ghost gl []string
 //@   after call labelsWithEmptyValueSelector set ev = result
 //@   after call labelsFromSelectors set gl = result
-//@   loop 2 invariant 0 <= iter2 && iter2 <= len(ev) && node == old(node) && !s.FixedLabels && len(s.IncludedLabels) == 0
+//@   loop 2 invariant 0 <= iter2 && iter2 <= len(ev) && node == old(node)
+//@   loop 2 invariant !s.FixedLabels
+//@   loop 2 invariant len(s.IncludedLabels) == 0
 //@   loop 2 invariant wfS(s)
 //@   loop 2 invariant sepS(s, ev) && sepS(s, gl)
 //@   loop 2 invariant subset(s.ExcludedLabels, ev)
